@@ -975,6 +975,9 @@ class Composition(LemmaUnit):
 
 
 UNITS += [Composition]
+# buffer() is an operator too: its meaning is the identity on the stream (order, exactly once). Proved by the Buffer units shared with C05/C08.
+from contracts.buffer import RunWorker, RunWorkerNoExtern, BufIter, BufStart      # noqa: E402
+UNITS += [RunWorker, RunWorkerNoExtern, BufIter, BufStart]
 NOT_DECIDED = ('user functions passed to map/filter/accumulate are modelled as uninterpreted functions of their argument (statefulness other than Accumulator/Peeker is outside the model)',
                'unbatch of general iterables (only list/tuple elements are modelled)',
                'meaning of itertools.groupby, random.shuffle/randrange, functools.partial, list() (trusted stdlib contracts)')
